@@ -558,3 +558,51 @@ Definition rebuild_like (v : pyval) (xs : list pyval) : out pyval :=
   | PFrozen _ => Ok (PFrozen xs)
   | _ => Unmodelled
   end.
+
+(* ---------- comparing model and implementation outcomes ---------- *)
+(* structural equality, except that the members of a set are matched up to == and class: which of
+   several ==-equal members a Python set keeps depends on hash iteration order *)
+Fixpoint val_sim (a b : pyval) {struct a} : bool :=
+  let fix lst (xs ys : list pyval) {struct xs} : bool :=
+    match xs, ys with
+    | [], [] => true
+    | x :: xr, y :: yr => val_sim x y && lst xr yr
+    | _, _ => false
+    end in
+  let fix kvl (xs ys : list (pyval * pyval)) {struct xs} : bool :=
+    match xs, ys with
+    | [], [] => true
+    | (k, v) :: xr, (k', v') :: yr => val_sim k k' && val_sim v v' && kvl xr yr
+    | _, _ => false
+    end in
+  let fix skvl (xs ys : list (string * pyval)) {struct xs} : bool :=
+    match xs, ys with
+    | [], [] => true
+    | (k, v) :: xr, (k', v') :: yr => String.eqb k k' && val_sim v v' && skvl xr yr
+    | _, _ => false
+    end in
+  let fix sub (xs ys : list pyval) {struct xs} : bool :=
+    match xs with
+    | [] => true
+    | x :: xr =>
+        (fix mem (l : list pyval) : bool :=
+           match l with
+           | [] => false
+           | y :: yr => (val_sim x y || (py_eq x y && kind_eqb (kind_of x) (kind_of y))) || mem yr
+           end) ys && sub xr ys
+    end in
+  match a, b with
+  | PList x, PList y => lst x y
+  | PTuple x, PTuple y => lst x y
+  | PSet x, PSet y => Nat.eqb (List.length x) (List.length y) && sub x y
+  | PFrozen x, PFrozen y => Nat.eqb (List.length x) (List.length y) && sub x y
+  | PDict x, PDict y => kvl x y
+  | PInst c x, PInst c' y => Nat.eqb c c' && skvl x y
+  | _, _ => val_eqb a b
+  end.
+
+Definition obs_sim (a b : obs) : bool :=
+  match a, b with
+  | OVal x, OVal y => val_sim x y
+  | _, _ => obs_eqb a b
+  end.
